@@ -18,6 +18,13 @@ of the failing calls.
   resume        (failing data source) state taken after k outputs + from_state
                 delivers the remaining outputs exactly once.
 
+Long sources: the reader behind SequenceDataSource reads ahead WINDOW = 64
+elements per slice read and falls back to reads of 16, 4, 1 after a failing
+read.  `long_source_cases` / `long_operator_cases` add sources of 63..130
+(thorough: ..200) elements, whole or as shard i of k <= 3, stored in one or two
+members, with the failing positions, shard ends, member boundaries and resume
+cuts at and next to the multiples of those windows.
+
 Only num_threads = 0 is enumerated here; `nt` is carried through every program
 so that a scheduler-driven variant can add values to NUM_THREADS.
 """
@@ -35,6 +42,17 @@ EXCS = {'ValueError': ValueError, 'TypeError': TypeError, 'KeyError': KeyError}
 SOURCE_SKIPPABLE = ('ValueError', 'TypeError')  # iter_utils._IGNORE_ERROR_TYPES
 NUM_THREADS = (0,)
 REBATCH = ((0, 0), (2, 0), (2, 2))  # (batch_size, fn_batch_size)
+# Internal windows of the range reader behind SequenceDataSource, as plain
+# numbers (run() reports a cap when the library's constant is another one):
+WINDOW = 64       # elements read ahead per slice read
+LADDER = (16, 4)  # read sizes after a failing read (a quarter each time), then 1
+LONG_N = {True: (63, 64, 65, 100, 129, 130),
+          False: (63, 64, 65, 100, 128, 129, 130, 193, 200)}
+# quick: (exception, source flag, iterate flag) so that every exception type
+# and every expectation mode occurs: skip (both flags; source flag only),
+# either, raise
+LONG_FLAGS = (('ValueError', True, True), ('ValueError', False, True),
+              ('TypeError', True, False), ('KeyError', True, True))
 
 
 # ---- fixtures (test doubles, not the code under test) ----------------------
@@ -156,22 +174,31 @@ def programs(max_ops):
                        srcflag=None, w=w, nt=nt)
 
 
+def reads_source(prog):
+  """The pipeline starts at a SequenceDataSource (else: iterate(list))."""
+  return prog['loc'] == 'source' or bool(prog.get('src'))
+
+
 def build(prog, injector, sinks):
   from ml_metrics._src.chainables import transform
   t = transform.TreeTransform.new(num_threads=prog['nt'])
-  if prog['loc'] == 'source':
+  if reads_source(prog):
     from ml_metrics._src.chainables import io
     src = prog.get('src') or {}
     elements, slices = make_elements(prog['n'], prog['w']), src.get('slices', True)
+    # the sequence fails only when the source is the failure location; an
+    # operator failure over a (long) source reads plain lists
+    seq = ((lambda part: FailingSequence(part, injector, slices))
+           if prog['loc'] == 'source' else list)
     if src.get('members') is None:
-      ds = io.SequenceDataSource(FailingSequence(elements, injector, slices),
-                                 ignore_error=prog['srcflag'])
+      ds = io.SequenceDataSource(seq(elements),
+                                 ignore_error=bool(prog['srcflag']))
     else:
       cuts = [0] + list(itt.accumulate(src['members']))
       assert cuts[-1] == prog['n']
       ds = io.SequenceDataSource.from_sequences(
-          [FailingSequence(elements[a:b], injector, slices)
-           for a, b in zip(cuts, cuts[1:])], ignore_error=prog['srcflag'])
+          [seq(elements[a:b]) for a, b in zip(cuts, cuts[1:])],
+          ignore_error=bool(prog['srcflag']))
     if src.get('shard'):
       ds = ds.shard(*src['shard'])
     t = t.data_source(ds)
@@ -210,7 +237,7 @@ def observe(prog, failing):
   sinks = {}
   t = build(prog, injector, sinks)
   runner = t.make()
-  if prog['loc'] == 'source':
+  if reads_source(prog):
     it = runner.iterate(ignore_error=prog['ignore'])
   else:
     it = runner.iterate(make_elements(prog['n'], prog['w']),
@@ -241,15 +268,19 @@ def observe(prog, failing):
   return obs
 
 
+def source_range(prog):
+  """[lo, hi) of the stream elements the pipeline reads."""
+  shard = (prog.get('src') or {}).get('shard')
+  return skip_ref.shard_range(prog['n'], *shard) if shard else (0, prog['n'])
+
+
 def expectation(prog, failing):
   """-> (mode, outputs, writes) with mode in clean / skip / raise / either."""
   n, ops = prog['n'], prog['ops']
-  elements = make_elements(n, prog['w'])
+  lo, hi = source_range(prog)
+  # (a row value still names its stream element)
+  elements = make_elements(n, prog['w'])[lo:hi]
   if prog['loc'] == 'source':
-    lo, hi = 0, n
-    if (prog.get('src') or {}).get('shard'):
-      lo, hi = skip_ref.shard_range(n, *prog['src']['shard'])
-    elements = elements[lo:hi]   # (a row value still names its stream element)
     failing = [f - lo for f in failing if lo <= f < hi]
     if not failing:
       return ('clean',) + skip_ref.run(elements, ops, None, ())[:2]
@@ -373,14 +404,23 @@ def run_case(st, prog, failing):
     st.violation(sig_of(prog, what),
                  {'expected': exp, 'observed': obs, 'info': info, **replay},
                  replay=replay)
-  if exp[0] == 'skip' and prog['loc'] == 'source' and not any(
-      op['kind'] == 'sink' for op in prog['ops']):
+  resumable = prog['loc'] == 'source' and not any(
+      op['kind'] == 'sink' for op in prog['ops'])
+  if prog.get('long'):  # ValueError, both flags on; also when nothing fails
+    resumable = (resumable and exp[0] in ('skip', 'clean') and prog['ignore']
+                 and prog['srcflag'] and prog['exc'] == 'ValueError')
+  elif exp[0] != 'skip':
+    resumable = False
+  if resumable:
     resume_case(st, prog, failing, exp[1], replay)
 
 
 def resume_case(st, prog, failing, outs, replay):
   """Checkpoint after `cut` outputs, resume, compare the concatenation."""
-  for cut in range(len(outs) + 1):
+  cuts = range(len(outs) + 1)
+  if prog.get('long'):
+    cuts = long_cuts(len(outs), prog['long'] == 'quick')
+  for cut in cuts:
     st.case(('resume', cut) + key_of(prog, failing))
     try:
       injector = Injector(failing, prog['exc'])
@@ -433,7 +473,121 @@ def source_structures(n, max_members):
                    shard=None if k == 1 else (i, k))
 
 
+# ---- long sources -----------------------------------------------------------
+
+def window_offsets(length, quick):
+  """Offsets into a range of `length` elements that is read from its start:
+  both ends and their neighbours, and the last / first elements on either
+  side of every multiple of the read-ahead window and of its first fall-back
+  size (thorough: also of the second fall-back size, and of the first
+  fall-back size after one whole window)."""
+  marks = [m * WINDOW for m in (1, 2, 3)] + [LADDER[0]]
+  if not quick:
+    marks += [LADDER[1], WINDOW + LADDER[0]]
+  offsets = {0, 1, length - 2, length - 1}
+  for b in marks:
+    offsets |= {b - 1, b, b + 1}
+  return sorted(o for o in offsets if 0 <= o < length)
+
+
+def long_cuts(m, quick):
+  """Numbers of outputs taken before the checkpoint, of m outputs."""
+  cuts = {1, WINDOW - 1, WINDOW, WINDOW + 1, m - 1}
+  if not quick:
+    cuts |= {LADDER[0], 2 * WINDOW, m}
+  return sorted(c for c in cuts if 0 <= c <= m)
+
+
+def long_structures(n, quick):
+  """Storage (one sliceable sequence; two members, the first one element
+  longer than the window if n allows, else one element; one index-only
+  sequence; thorough: more member layouts) x the whole source or shard i of
+  k for k <= 3 (quick: k = 3 only for n >= 100; below, the shards of k = 2 are
+  already shorter than half a window)."""
+  first = WINDOW + 1 if n > WINDOW + 1 else 1
+  layouts = [(True, None), (True, (first, n - first)), (False, None)]
+  if not quick:
+    layouts += [(False, (first, n - first))]
+    if n > WINDOW:
+      layouts.append((True, (WINDOW, n - WINDOW)))
+    if n > WINDOW + 2:
+      layouts.append((True, (1, WINDOW + 1, n - WINDOW - 2)))
+  for slices, members in layouts:
+    for k in (1, 2, 3):
+      for i in range(0 if quick and k == 3 and n < 100 else k):
+        yield dict(slices=slices, members=members,
+                   shard=None if k == 1 else (i, k))
+
+
+def long_failure_sets(n, src, quick, offsets=None):
+  """F = {} / one position / two neighbouring positions of the range read."""
+  lo, hi = skip_ref.shard_range(n, *src['shard']) if src['shard'] else (0, n)
+  pos = {lo + o for o in (window_offsets(hi - lo, quick) if offsets is None
+                          else offsets(hi - lo))}
+  for b in list(itt.accumulate(src['members'] or ()))[:-1]:
+    pos |= {b - 1, b}  # last / first element of a member
+  pos = sorted(p for p in pos if lo <= p < hi)
+  yield ()
+  for p in pos:
+    yield (p,)
+  if offsets is None:
+    for p in pos:
+      # quick: only the pairs across a multiple of the window, and the last two
+      if p + 1 in pos and (not quick or (p + 1 - lo) % WINDOW == 0
+                           or p + 1 == hi - 1):
+        yield (p, p + 1)
+
+
+def long_source_cases(quick):
+  """A failing long source under the first apply."""
+  tier = 'quick' if quick else 'thorough'
+  base = [p for p in programs(0) if p['loc'] == 'source']
+  for n in LONG_N[quick]:
+    for src in long_structures(n, quick):
+      for failing in long_failure_sets(n, src, quick):
+        for p in base:
+          flags = (p['exc'], p['srcflag'], p['ignore'])
+          if not failing and p['exc'] != 'ValueError':
+            continue  # nothing fails: the exception type is never seen
+          if failing and quick and flags not in LONG_FLAGS:
+            continue
+          yield dict(p, n=n, src=src, long=tier), failing
+
+
+def long_operator_cases(quick):
+  """A failing operator (every program of the main enumeration with <= 1
+  (thorough: 2) operators after the first apply, ValueError) over a long
+  source that does not fail."""
+  tier = 'quick' if quick else 'thorough'
+  sources = [(2 * WINDOW + 2, None), (2 * WINDOW + 2, (0, 2))]
+  if not quick:
+    sources += [(WINDOW + 1, None), (2 * WINDOW + 1, (0, 2)), (200, (1, 3))]
+  ends = lambda length: [o for o in ((0,) if not quick else ()) + (
+      WINDOW - 1, WINDOW, length - 1) if 0 <= o < length]
+  for p in programs(1 if quick else 2):
+    if p['loc'] == 'source' or p['exc'] != 'ValueError':
+      continue
+    for n, shard in sources:
+      src = dict(slices=True, members=None, shard=shard)
+      for failing in long_failure_sets(n, src, quick, offsets=ends):
+        yield dict(p, n=n, src=src, long=tier), failing
+
+
+def _case_unit(cases):
+  st = Stats()
+  for prog, failing in cases:
+    run_case(st, prog, failing)
+  if cases:
+    prog, failing = cases[-1]
+    st.sample({'long source': {k: prog[k] for k in (
+        'ops', 'loc', 'exc', 'ignore', 'srcflag', 'w', 'n', 'src')},
+               'failing': failing})
+  return st
+
+
 def _unit(args):
+  if args[0] == 'cases':
+    return _case_unit(args[1])
   progs, cases, max_members = args
   st = Stats()
   for prog in progs:
@@ -472,7 +626,40 @@ def run(ctx):
       f'from_sequences over 2..{src_members} members of every length >= 0 '
       'summing to n x the whole source or shard i of k for every i < k <= '
       'n + 1 (one-element and empty shards occur) x the same F, exception, '
-      'ignore_error flags and resume cuts; non-trivial = a '
+      'ignore_error flags and resume cuts; plus LONG SOURCES (longer than the '
+      f'{WINDOW}-element read-ahead of the range reader behind '
+      f'SequenceDataSource, which falls back to reads of {LADDER[0]}, '
+      f'{LADDER[1]}, 1 after a failing read): n in {list(LONG_N[ctx.quick])} '
+      'x storage (one sliceable sequence; two members, the first of '
+      f'{WINDOW + 1} elements if n > {WINDOW + 1}, else of 1; one index-only '
+      'sequence' + ('' if ctx.quick else
+                    '; the two members index-only; members '
+                    f'({WINDOW}, n-{WINDOW}); members (1, {WINDOW + 1}, rest)')
+      + ') x the whole source or shard i of k for i < k <= 3'
+      + (' (k = 3 for n >= 100)' if ctx.quick else '') + ' x F = {} or one '
+      'position or two neighbouring positions'
+      + (f' (pairs: across a multiple of {WINDOW} from the range start, and '
+         'the last two elements)' if ctx.quick else '')
+      + ' out of: first two and last two elements of the range read, last / '
+      'first element of a member, and b-1, b, b+1 for b in '
+      f'{{{WINDOW}, {2 * WINDOW}, {3 * WINDOW}, {LADDER[0]}'
+      + ('' if ctx.quick else f', {LADDER[1]}, {WINDOW + LADDER[0]}')
+      + '} counted from the range start x '
+      + ('(exception, source flag, iterate flag) in ' + ', '.join(
+          '%s/%d/%d' % f for f in LONG_FLAGS) if ctx.quick
+         else 'every exception and flag combination')
+      + ' under the first apply, with resume (ValueError, both flags on, '
+      'also for F = {}) '
+      f'at the cuts {[c for c in long_cuts(10 ** 6, ctx.quick) if c < 10 ** 5]} and m-1'
+      + ('' if ctx.quick else ', m') + ' of m outputs; and a failing '
+      f'operator over a long source that does not fail: every program with '
+      f'<= {1 if ctx.quick else 2} operators after the first apply, every '
+      'failing operator and re-batching option, ValueError, skipping on/off '
+      f'x source of {2 * WINDOW + 2} elements or shard 0 of 2 of it'
+      + ('' if ctx.quick else f', source of {WINDOW + 1}, shard 0 of 2 of '
+         f'{2 * WINDOW + 1}, shard 1 of 3 of 200') + ' x F = {} or one of the '
+      'offsets ' + ('' if ctx.quick else '0, ') + f'{WINDOW - 1}, '
+      f'{WINDOW}, last of the range read; non-trivial = a '
       'failure is actually reached; distinct = distinct (driver, program, n, F)')
   ctx.assumptions += [
       'any exception raised by an operator function is skippable '
@@ -495,6 +682,9 @@ def run(ctx):
       'n mod k shards one element more)',
       'a slice read that raises is not an element failure: it must never '
       'surface nor cost an element (documented fall-back to single reads)',
+      'long sources: the window sizes 64 / 16 / 4 are stated in the check '
+      '(a cap is reported if the library constant differs); the threaded '
+      'variant under the scheduler keeps its 4-record inputs',
   ]
   ctx.notes['programs'] = len(progs)
   ctx.notes['failure_sets'] = len(cases)
@@ -513,6 +703,17 @@ def run(ctx):
   ctx.notes['source_structure_programs'] = len(src_progs)
   ctx.notes['source_structures_per_n'] = {
       n: sum(1 for _ in source_structures(n, src_members)) for n in by_n}
+  # long sources (see the rule); the positions are derived from WINDOW
+  from ml_metrics._src.utils import iter_utils
+  if getattr(iter_utils, '_RANDOM_ACCESS_BATCH_SIZE', None) != WINDOW:
+    ctx.cap(f'the read-ahead of the range reader is no longer {WINDOW}: the '
+            'positions of the long-source family do not meet its windows')
+  long_src = list(long_source_cases(ctx.quick))
+  long_ops = list(long_operator_cases(ctx.quick))
+  ctx.notes['long_source_cases'] = len(long_src)
+  ctx.notes['long_source_operator_failure_cases'] = len(long_ops)
+  units += [('cases', c) for c in enums.chunks(
+      long_src + long_ops, max(1, (len(long_src) + len(long_ops)) // 48))]
   ctx.pmap(_unit, ctx.shuffled(units))
   # num_threads in {1, 2} under the deterministic scheduler (E1): a failing
   # operator call at every failure set |F| <= 2 over 4 records, skipping on/off
